@@ -25,6 +25,7 @@ func c07(c *Ctx) {
 	c07R5(c)
 	// "no address stays marked as owned by a pod that holds none": commit delivers or rolls back (shared rule)
 	c01R6(c)
+	c01R8(c)
 }
 
 // declReturns lists the return statements of the function body proper (not literals).
